@@ -30,7 +30,7 @@ ASSUMPTIONS = ['the oracle for a name is a stand-alone real monitor of the inlin
 REAL = common.REAL_ALL
 STUBS = common.STUBS_ALL
 INTERLEAVING_MEASURE = 'distinct (monitor kind, mode, number of updates or batches) tuples'
-PROBES = ['shared_subspec', 'nested_subspec', 'unreferenced_assertion', 'pastified', 'operand_of_bounded_future', 'online', 'dense_time']
+PROBES = ['shared_subspec', 'nested_subspec', 'unreferenced_assertion', 'pastified', 'operand_of_bounded_future', 'online', 'dense_time', 'update_after_a_failed_update']
 
 
 def gen(rng, tier):
@@ -66,6 +66,10 @@ def gen(rng, tier):
         sc['n'] = rng.randint(1, 9)
         sc['data'] = world.gen_trace(rng, vars_, sc['n'])
         common.add_clock(rng, sc)
+        if mode == 'on' and not pastify and sc['n'] >= 2 and rng.random() < 0.25:
+            # one update() raises half-way: a further sensor z, read only by the last conjunct of the top assertion, delivers
+            # None once; the application catches the exception and keeps monitoring with the same object
+            sc['poison'] = {'at': rng.randrange(sc['n'] - 1)}
     return sc
 
 
@@ -86,6 +90,9 @@ def parent_desc(sc):
         subs.append('%s = %s;' % (sc['extra'][0], sg.to_text(sc['extra'][1], sp, bp)))
     top = 'out = ' + sg.to_text(sc['top'], sp, bp) + ';'
     desc = {'cls': sc['kind'], 'vars': common.var_decls(sc['vars']), 'pastify': sc['pastify']}
+    if sc.get('poison'):
+        top = 'out = ' + sg.to_text(['and', sc['top'], ['pred', '>=', ['var', 'z'], ['const', 0.0]]], sp, bp) + ';'
+        desc['vars'] = desc['vars'] + [['z', 'float']]
     if sc.get('declare'):
         desc['vars'] = desc['vars'] + [[n, 'float'] for n, _ in sc['defs']] + ([[sc['extra'][0], 'float']] if sc.get('extra') else [])
     if sc.get('via') == 'text':
@@ -120,10 +127,13 @@ def run(sc):
         r.faults['batch_split'] += sc['nbatches'] - 1
     dense = sc['kind'].startswith('ct')
     names = names_of(sc)
+    poison = sc.get('poison') if (sc['mode'] == 'on' and not dense and not sc['pastify']) else None
+    if poison:
+        names = [x for x in names if x[0] != 'out']      # no claim about the assertion that failed
     if not common.ref_defined([a for _, a in names], dense, sc['signals'] if dense else sc['data'], sc.get('n')):
         r.discarded = True
         return r
-    pd = parent_desc(sc)
+    pd = parent_desc(sc if poison else dict(sc, poison=None))
     used = sg.vars_of(sc['ast']) + [v for v in (sg.vars_of(sc['extra'][1]) if sc.get('extra') else []) if v not in sg.vars_of(sc['ast'])]
     try:
         parent = M.build(pd)
@@ -197,6 +207,23 @@ def run(sc):
             for k, rd in enumerate(rounds):
                 if dense:
                     M.ct_update(parent, rd, sc['vars'])
+                elif poison:
+                    failed = False
+                    try:
+                        M.dt_update(parent, common.stamps_of(sc)[rd], [(v, sc['data'][v][rd]) for v in sc['vars']] +
+                                    [('z', None if rd == poison['at'] else 1.0)])
+                    except M.ApiCrash:
+                        if rd != poison['at']:
+                            raise
+                        failed = True
+                        r.faults['update_raised_midway'] += 1
+                    if failed:
+                        # nothing is claimed about this update; the stand-alone monitors of the sub-specifications see the sample
+                        for n, mon in alone:
+                            M.dt_update(mon, common.stamps_of(sc)[rd], [(v, sc['data'][v][rd]) for v in sc['vars']])
+                        continue
+                    if rd > poison['at']:
+                        r.probes['update_after_a_failed_update'] += 1
                 else:
                     M.dt_update(parent, common.stamps_of(sc)[rd], [(v, sc['data'][v][rd]) for v in sc['vars']])
                 d = M.state_digest(parent)
@@ -253,6 +280,10 @@ def run(sc):
 
 
 def shrinks(sc):
+    if sc.get('poison'):
+        c = copy.deepcopy(sc)
+        c['poison'] = None
+        yield c
     if sc.get('extra'):
         c = copy.deepcopy(sc)
         c['extra'] = None
